@@ -56,21 +56,25 @@ func (fc *FuncCtx) execInstr(fr *Frame, st *State, ins ssa.Instruction) {
 	case *ssa.Call:
 		fr.vals[t] = fc.execCall(fr, st, t.Common(), t)
 	case *ssa.Defer:
+		if deferredClosureWrites(t) {
+			// a deferred function literal that writes captured variables changes what the caller sees: it is executed in place at
+			// every RunDefers of this invocation. Supported when the defer statement is in the entry block (executed exactly
+			// once, before any return) and the literal takes no arguments; panics are not control flow in this model.
+			if t.Block().Index != 0 || len(t.Call.Args) != 0 {
+				unsupported("deferred closure writes a captured variable (defer statement outside the entry block or with arguments)")
+			}
+			fr.defers = append(fr.defers, t)
+			return
+		}
 		v.notes[fmt.Sprintf("%s: deferred call at %s is not executed by the model", fc.key, v.fset.Position(t.Pos()))] = true
-		// a deferred closure that writes captured variables would change results: refuse
-		if mc, ok := t.Call.Value.(*ssa.MakeClosure); ok {
-			fn := mc.Fn.(*ssa.Function)
-			for _, b := range fn.Blocks {
-				for _, in2 := range b.Instrs {
-					if s, ok := in2.(*ssa.Store); ok {
-						if _, isFV := s.Addr.(*ssa.FreeVar); isFV {
-							unsupported("deferred closure writes a captured variable")
-						}
-					}
-				}
+	case *ssa.RunDefers:
+		for i := len(fr.defers) - 1; i >= 0; i-- {
+			d := fr.defers[i]
+			fc.execCall(fr, st, d.Common(), d)
+			if st.dead {
+				return
 			}
 		}
-	case *ssa.RunDefers:
 		return
 	case *ssa.ChangeType:
 		x := fc.valOf(fr, t.X)
@@ -143,6 +147,29 @@ func (fc *FuncCtx) execInstr(fr *Frame, st *State, ins ssa.Instruction) {
 			if at, ok := v.tm.abstract[typeKey(t.Type())]; ok && at.ListNil != "" && n.Op == "int" && n.IntVal.Sign() == 0 {
 				fr.vals[t] = Val{T: v.listNil(at), GoT: t.Type()}
 				return
+			}
+			// make(T, n) assigned to a `rawslice` variable: the concrete slice of n zero elements
+			if sl, isSl := t.Type().Underlying().(*types.Slice); isSl && fc.spec != nil && len(fc.spec.RawSlice) > 0 {
+				onlyRaw := t.Referrers() != nil && len(*t.Referrers()) > 0
+				if onlyRaw {
+					for _, r := range *t.Referrers() {
+						switch rr := r.(type) {
+						case *ssa.DebugRef:
+						case *ssa.Store:
+							a, isAlloc := rr.Addr.(*ssa.Alloc)
+							if !(isAlloc && rr.Val == t && fc.spec.RawSlice[a.Comment] && a.Parent() == fc.fn) {
+								onlyRaw = false
+							}
+						default:
+							onlyRaw = false
+						}
+					}
+				}
+				if onlyRaw {
+					raw := v.tm.RawSliceSort(sl)
+					fr.vals[t] = Val{T: c.Ctor(raw, v.tm.ZeroOf(raw.Fields[0].Sort), n), GoT: t.Type()}
+					return
+				}
 			}
 			unsupported("make of abstract type %s", t.Type())
 		}
@@ -378,7 +405,11 @@ func (fc *FuncCtx) execIndexAddr(fr *Frame, st *State, t *ssa.IndexAddr) {
 				ln := c.App(at.SeqLen, SInt, s)
 				fc.safety(st, "index", c.And(c.Cmp("<=", c.Int(0), idx), c.Cmp("<", idx, ln)), t.Pos(), "list index in range")
 				es := v.tm.SortOf(xt.Elem())
-				fr.vals[t] = Val{Loc: &Loc{Root: c.App(at.SeqAt, es, s, idx), Sort: es, GoT: xt.Elem(), RSort: es}, GoT: t.Type()}
+				loc := &Loc{Root: c.App(at.SeqAt, es, s, idx), Sort: es, GoT: xt.Elem(), RSort: es}
+				if sf, ok := v.specFuncs["setelem_"+sanitize(s.Sort.Name)]; ok && sv.Origin != nil && sv.Origin.Root == nil {
+					loc.AbsBase, loc.AbsIdx, loc.AbsSet, loc.AbsAt = sv.Origin, idx, sf, at.SeqAt
+				}
+				fr.vals[t] = Val{Loc: loc, GoT: t.Type()}
 				return
 			}
 			unsupported("indexing an abstract list value of type %s (sort %s) at %s", t.X.Type(), s.Sort.Name, v.fset.Position(t.Pos()))
@@ -467,6 +498,24 @@ func (fc *FuncCtx) execSlice(fr *Frame, st *State, t *ssa.Slice) {
 			if t.Low == nil && t.High == nil {
 				fr.vals[t] = Val{T: s, GoT: t.Type()}
 				return
+			}
+			// abstract list with a sequence view: s[lo:hi] through the spec function slice_<sort>(s, lo, hi), if declared
+			if at, ok := v.tm.abstract[typeKey(t.X.Type())]; ok && at.SeqLen != "" && t.Max == nil {
+				if sf, ok := v.specFuncs["slice_"+sanitize(s.Sort.Name)]; ok {
+					n := c.App(at.SeqLen, SInt, s)
+					st.assume(c, c.Cmp(">=", n, c.Int(0)))
+					if hi == nil {
+						hi = n
+					}
+					fc.safety(st, "slice", c.And(c.Cmp("<=", c.Int(0), lo), c.Cmp("<=", lo, hi), c.Cmp("<=", hi, n)), t.Pos(), "slice bounds within length")
+					env := &Env{v: v, vars: map[string]SV{}, st: st}
+					sv, err := env.applySpecFunc(sf, []SV{{T: s}, {T: lo}, {T: hi}})
+					if err != nil {
+						panic(specError{err.Error()})
+					}
+					fr.vals[t] = Val{T: sv.T, GoT: t.Type()}
+					return
+				}
 			}
 			unsupported("slicing an abstract list value")
 		}
